@@ -80,6 +80,10 @@ def ref(self):
     self._positions = vals.fillna(0.0)
     return vals
 ''', "positions aggregate per ticker over every security in the tree (add on a name collision)"),
+    (CORE, "StrategyBase", "securities", '''
+def ref(self):
+    return [x for x in self.members if isinstance(x, SecurityBase)]
+''', "the securities of a strategy are all security nodes of the WHOLE tree below it (outlays, turnover and the transaction list are built from them)"),
     (CORE, "StrategyBase", "outlays", '''
 def ref(self):
     if self.root.stale:
